@@ -109,6 +109,14 @@ def run_case(case, rec=None):
         files_before = [str(p) for p in r.ih5_files]
         dig_before = recutil.dir_digest(d)
         view_before = dump_real(r)
+        if cls is H.IH5MFRecord and case.get("announce", True):
+            # extensions announced for the next commit by changing the live manifest object (what the packer does):
+            # they are not committed, so they are not part of what is merged
+            try:
+                r.manifest.manifest_exts["announced-for-the-next-commit"] = 1
+                classes.add("live_manifest_changed_before_merge")
+            except Exception:  # noqa: BLE001 - no manifest (plain record opened as IH5MFRecord)
+                pass
         # 2. merge
         try:
             merged_file = r.merge_files(Path(d) / "merged")
